@@ -563,6 +563,12 @@ class FnRewriter:
     def r11_anyhow(self):
         toks = self.toks
         bo, bc = self.body_range()
+        # "literal".to_string() -> vx_str_to_string("literal")
+        for i in range(bo + 1, bc - 4):
+            if toks[i].kind == "str" and toks[i + 1].text == "." and toks[i + 2].text == "to_string" and toks[i + 3].text == "(" and toks[i + 4].text == ")":
+                self.edit(toks[i].start, toks[i].start, "vx_str_to_string(", "R11")
+                self.edit(toks[i].end, toks[i + 4].end, ")", "R11")
+                self.rule("R11")
         for i in range(bo + 1, bc):
             if toks[i].kind == "id" and toks[i].text == "anyhow" and toks[i + 1].text == "!" and toks[i + 2].text == "(":
                 st = i
